@@ -111,7 +111,7 @@ func TestC13(t *testing.T) {
 			}
 		}
 		// 2. every one-byte corruption, truncation and next byte of each literal (complete)
-		if e.enumStage("literals", "{null,true,false} x 6 whitespace prefixes x (every position x 256 substitutions, every truncation, 256 next bytes, 256 insertions)", true) {
+		if e.enumStage("literals", "{null,true,false} x 6 whitespace prefixes x (every truncation; every position x 256 substitutions and 256 insertions, followed by 6 trailers of 0..18 bytes)", true) {
 			buf := make([]byte, 0, 16)
 		lits:
 			for _, lit := range []string{"null", "true", "false"} {
@@ -122,18 +122,22 @@ func TestC13(t *testing.T) {
 							break lits
 						}
 					}
-					for pos := 0; pos <= len(base); pos++ {
-						for b := 0; b < 256; b++ {
-							if pos < len(base) {
-								buf = append(buf[:0], base...)
-								buf[pos] = byte(b)
-								if !run("literal.subst", buf) {
+					// what follows the (corrupted) literal: nothing, or enough bytes for readers
+					// that load 4, 8 or 16 bytes at once
+					for _, trail := range []string{"", ",", ", 1]", "      ", `, "next": 1}`, "]]]]]]]]]]]]]]]]]]"} {
+						for pos := 0; pos <= len(base); pos++ {
+							for b := 0; b < 256; b++ {
+								if pos < len(base) {
+									buf = append(append(buf[:0], base...), trail...)
+									buf[pos] = byte(b)
+									if !run("literal.subst", buf) {
+										break lits
+									}
+								}
+								buf = append(append(append(append(buf[:0], base[:pos]...), byte(b)), base[pos:]...), trail...)
+								if !run("literal.insert", buf) {
 									break lits
 								}
-							}
-							buf = append(append(append(buf[:0], base[:pos]...), byte(b)), base[pos:]...)
-							if !run("literal.insert", buf) {
-								break lits
 							}
 						}
 					}
